@@ -207,3 +207,13 @@ Theorem C07_verify_proof :
   exists b, vp_typed i = Some b /\ check b = Ok tt.
 Proof. exact top_ok_iff. Qed.
 Print Assumptions C07_verify_proof.
+
+(* The DID document's FIRST Iden3StateInfo2023 verification method decides "published",
+   whatever other methods precede or follow it (did_doc vms = the resolver's answer for a
+   document listing vms). *)
+Theorem C07_first_state_info :
+  forall (pre post : list vmethod) (p : option bool),
+  Forall (fun v => v = VMOther) pre ->
+  did_doc (pre ++ VMStateInfo p :: post) = DDoc (Some p).
+Proof. exact did_doc_first. Qed.
+Print Assumptions C07_first_state_info.
